@@ -313,8 +313,45 @@ type c02Mgr struct {
 func c02NewMgr(w *c02World) *c02Mgr {
 	big := c02RL(c02Vec{math.MaxInt64 / 5, math.MaxInt64 / 5})
 	m := &c02Mgr{gqm: NewGroupQuotaManager("", w.scale, big, big)}
+	// in-domain rule: the cluster total is built from node events, which carry every dimension with a
+	// positive amount; a manager therefore never evaluates quotas with a total that lacks a dimension
+	// (min-scaling iterates over the keys of the total and would silently skip an absent one).
+	m.setTotal(c02Vec{1, 1})
 	return m
 }
+
+// staleNoLend lists "group/dimension" for every non-lending group whose request held by the parent's
+// runtime calculator differs from the group's public limited request min(Request, Max). Diagnosis
+// only: it selects the signature of a violation that the output oracle found, it is never a verdict
+// by itself.
+func (m *c02Mgr) staleNoLend(w *c02World) []string {
+	var out []string
+	for _, n := range w.order {
+		g := w.groups[n]
+		if g.lend && !w.gate {
+			continue
+		}
+		s, ok := m.gqm.GetQuotaSummary(n, false)
+		calc := m.gqm.runtimeQuotaCalculatorMap[g.parent]
+		if !ok || calc == nil {
+			continue
+		}
+		for d := 0; d < 2; d++ {
+			qt := calc.quotaTree[c02Dims[d]]
+			if qt == nil {
+				continue
+			}
+			if found, node := qt.find(n); found {
+				if pub := c02Min64(c02Of(s.Request)[d], g.max[d]); node.request != pub {
+					out = append(out, fmt.Sprintf("%s/%s: calculator request %d, public limited request %d", n, c02Dims[d], node.request, pub))
+				}
+			}
+		}
+	}
+	return out
+}
+
+const c02SigStale = "C02/tree/nolend-request-stale-after-min-update"
 
 func (m *c02Mgr) setTotal(t c02Vec) {
 	delta := corev1.ResourceList{}
@@ -472,10 +509,25 @@ func TestVerifC02Tree(t *testing.T) {
 						}
 						sig, msg, o := c02Check("tree", sibs, total[d], rt, false, &st, &scr)
 						if sig != "" {
+							text := fmt.Sprintf("%s: children of %s, dimension %s, total (parent's runtime) %d: %s runtime=%v: %s", where, p, c02Dims[d], total[d], c02SibsString(sibs), rt, msg)
+							// diagnosis: is a sibling of this level affected by the stale request of a non-lending group?
+							var hit []string
+							for _, line := range m.staleNoLend(w) {
+								for _, k := range kids {
+									if len(line) > len(k) && line[:len(k)+1] == k+"/" {
+										hit = append(hit, line)
+									}
+								}
+							}
+							if len(hit) > 0 {
+								c.Report(c02SigStale, "%s [relation violated: %s; the parent's runtime calculator divides with a request of a non-lending child that was not refreshed when its min was set: %v]", text, sig, hit)
+								c.Count("levels_hit_by_stale_nolend_request", 1)
+								continue
+							}
 							if w.scale {
 								sig += "-minscale"
 							}
-							c.Fail(sig, "%s: children of %s, dimension %s, total (parent's runtime) %d: %s runtime=%v: %s", where, p, c02Dims[d], total[d], c02SibsString(sibs), rt, msg)
+							c.Fail(sig, "%s", text)
 						}
 						c.Count("levels_checked", 1)
 						c.Count(fmt.Sprintf("levels_checked_depth%d", depth), 1)
@@ -618,7 +670,13 @@ func TestVerifC02Tree(t *testing.T) {
 					if w.scale {
 						sig += "-minscale"
 					}
-					c.Fail(sig, "group %s: the manager that lived through the history reports runtime %v, a fresh manager fed the same quotas (order %v), pods and cluster total %v reports %v", n, final[n], forder, w.total, fresh[n])
+					text := fmt.Sprintf("group %s: the manager that lived through the history reports runtime %v, a fresh manager fed the same quotas (order %v), pods and cluster total %v reports %v", n, final[n], forder, w.total, fresh[n])
+					if a, b := m.staleNoLend(w), f.staleNoLend(w); len(a)+len(b) > 0 {
+						c.Report(c02SigStale, "%s [history dependence; stale requests of non-lending groups in the parent's calculator: lived %v, fresh %v]", text, a, b)
+						c.Count("fresh_instance_hit_by_stale_nolend_request", 1)
+						break
+					}
+					c.Fail(sig, "%s", text)
 				}
 			}
 			if nontrivial {
